@@ -225,7 +225,7 @@ func TestCheck(t *testing.T) {
 		// an excluded selection that could not be merged with its same-key sibling,
 		// and one field selected twice with equal text but other directive outcomes
 		o.PConflictExcluded = 0.06
-		o.PCloneDirs = 0.08
+		o.PCloneDirs = 0.12
 		if os.Getenv("VERIF_SMALL") != "" {
 			o.MaxDepth, o.MaxWidth, o.PVar = 2, 3, 0.05
 		}
@@ -297,7 +297,7 @@ func TestCheck(t *testing.T) {
 			}
 		}
 		// inside a rerunner (reactive cache of Expensive fields), every 2nd case
-		if i%2 == 1 {
+		if i%2 == 1 || doc.ClonedDirs > 0 {
 			si := 2 // the all-Expensive configuration
 			wit := map[string]interface{}{"annotated": text, "variables": vars, "pruned": ptext, "pruned_variables": pvars, "config": names[si] + "+rerunner",
 				"world": map[string]interface{}{"seed": w.Seed, "n": w.N, "m": w.M}}
